@@ -119,8 +119,14 @@ def build_bins(backend, bins, profile="dev", nostd=False):
         log = os.path.join(OUT, "replay", "build-%s-%s.json" % (backend, "-".join(bins)))
         with open(log, "w") as f:
             json.dump({"kind": "build", "backend": backend, "bins": bins, "diagnostics": diags, "stderr": p.stderr[-8000:]}, f, indent=1)
-        in_harness = [d for d in diags if d["code"] in TYPE_ERRS and d["file"] and not os.path.isabs(d["file"])]
-        if in_harness and all(d["code"] in TYPE_ERRS for d in diags if d["code"]):
+        def typeish(d):
+            # besides type errors: an item that the macro should have generated from a definition the HARNESS owns
+            # (src/synth.rs: variants, constants, unit types of the synthetic quantities) can no longer be named
+            if d["code"] is None and (d["file"] or "").endswith("src/synth.rs"):
+                return True          # the macro itself rejects a well-formed synthetic definition (proc-macro error, no code)
+            return d["code"] in TYPE_ERRS or (d["code"] in ("E0425", "E0412", "E0433", "E0531") and "synth" in (d["message"] or ""))
+        in_harness = [d for d in diags if typeish(d) and d["file"] and not os.path.isabs(d["file"])]
+        if in_harness and all(typeish(d) for d in diags if d["code"]):
             raise BuildViolation("executor %s no longer type-checks against /repo (%s): %s" % (
                 ",".join(bins), backend, in_harness[0]["message"][:300]), log)
         raise Inconclusive("executor build failed (%s): %s" % (backend, p.stderr[-800:]))
